@@ -1,0 +1,57 @@
+#ifndef IGRIS_UTIL_VERIF_HOOK_H
+#define IGRIS_UTIL_VERIF_HOOK_H
+
+/**
+    @file
+    Observation points for external runtime verification.
+
+    IGRIS_VERIF_POINT(id, ptr, val) expands to nothing unless the library is
+    compiled with -DIGRIS_VERIF (no regular build does that). With the guard
+    on it calls the function stored in igris_verif_hook, if any. The points
+    never change library state; they only tell a test harness that a thread
+    passed a place that cannot be seen at the public API (a waiter became
+    visible in a wait list, a node was unlinked by a waker) and give it a
+    place to inject delays between two critical sections.
+*/
+
+#ifdef IGRIS_VERIF
+
+#include <stdint.h>
+
+#define IGRIS_VERIF_WAIT_PARKED 1  /* waiter linked, system lock held; ptr=node, val=priority */
+#define IGRIS_VERIF_WAIT_GAP 2     /* waiter between system_unlock and event wait; ptr=node   */
+#define IGRIS_VERIF_WAIT_UNLINK 3  /* waker unlinked a node, system lock held; ptr=node, val=future */
+#define IGRIS_VERIF_EVENT_GAP 4    /* event::signal between notify and mutex unlock (either order); ptr=event */
+
+#ifdef __cplusplus
+extern "C"
+{
+#endif
+
+    typedef void (*igris_verif_hook_t)(int id, const void *ptr, intptr_t val);
+
+    /* Weak definition: every translation unit that uses a point carries one,
+       the linker keeps a single copy, nobody has to provide the symbol. */
+    __attribute__((weak)) igris_verif_hook_t igris_verif_hook;
+
+#ifdef __cplusplus
+}
+#endif
+
+#define IGRIS_VERIF_POINT(id, ptr, val)                                        \
+    do                                                                         \
+    {                                                                          \
+        if (igris_verif_hook)                                                  \
+            igris_verif_hook((id), (const void *)(ptr), (intptr_t)(val));      \
+    } while (0)
+
+#else
+
+#define IGRIS_VERIF_POINT(id, ptr, val)                                        \
+    do                                                                         \
+    {                                                                          \
+    } while (0)
+
+#endif
+
+#endif
